@@ -165,3 +165,292 @@ Proof.
   apply flat_map_ext_in. intros j Hj. apply in_seq in Hj.
   rewrite <- (H i j) by lia. symmetry. apply map_nth_seq.
 Qed.
+
+(* ---- getters on tabulated tensors ---------------------------------------------------------------- *)
+Lemma g2_tab2 : forall n m f i j, i < n -> j < m -> g2 m (tabv2 n m f) i j = f i j.
+Proof. intros. unfold g2, tabv2. cbn [vdata]. now apply nth_tl2. Qed.
+
+Lemma g3_tab3 : forall a b c f i j k, i < a -> j < b -> k < c -> g3 b c (tabv3 a b c f) i j k = f i j k.
+Proof. intros. unfold g3, tabv3. cbn [vdata]. now apply nth_tl3. Qed.
+
+Lemma tabv2_ext : forall n m f g, (forall i j, i < n -> j < m -> f i j = g i j) -> tabv2 n m f = tabv2 n m g.
+Proof. intros. unfold tabv2. f_equal. now apply tl2_ext. Qed.
+
+Lemma tabv3_ext : forall a b c f g,
+  (forall i j k, i < a -> j < b -> k < c -> f i j k = g i j k) -> tabv3 a b c f = tabv3 a b c g.
+Proof. intros. unfold tabv3. f_equal. now apply tl3_ext. Qed.
+
+Lemma bidx_same : forall n i, i < n -> bidx n i = i.
+Proof. intros n i H. unfold bidx. destruct (Nat.eqb_spec n 1); lia. Qed.
+
+Lemma bidx_1 : forall i, bidx 1 i = 0. Proof. reflexivity. Qed.
+
+Lemma bdim_same : forall n, bdim n n = Some n.
+Proof. intros n. unfold bdim. now rewrite Nat.eqb_refl. Qed.
+
+Lemma bdim_1_l : forall n, bdim 1 n = Some n.
+Proof. intros n. unfold bdim. destruct (Nat.eqb_spec 1 n); [now subst|reflexivity]. Qed.
+
+Lemma nat_of_vnat : forall n, nat_of (vnat n) = Some n.
+Proof.
+  intros n. unfold nat_of, vnat. replace (0 <=? Z.of_nat n)%Z with true by (symmetry; apply Z.leb_le; lia).
+  now rewrite Nat2Z.id.
+Qed.
+
+Lemma nat_of_int : forall n, nat_of (VInt (Z.of_nat n)) = Some n.
+Proof. exact nat_of_vnat. Qed.
+
+(* ---- element-wise maps ---------------------------------------------------------------------------------- *)
+Lemma tmap_opt_tab2 : forall h n m f g,
+  (forall i j, i < n -> j < m -> h (f i j) = Some (g i j)) -> tmap_opt h (tabv2 n m f) = Some (tabv2 n m g).
+Proof. intros. unfold tmap_opt, tabv2. cbn [vdata vshape]. now rewrite (map_opt_tl2 h n m f g). Qed.
+
+Lemma tmap_opt_tab3 : forall h a b c f g,
+  (forall i j k, i < a -> j < b -> k < c -> h (f i j k) = Some (g i j k)) ->
+  tmap_opt h (tabv3 a b c f) = Some (tabv3 a b c g).
+Proof. intros. unfold tmap_opt, tabv3. cbn [vdata vshape]. now rewrite (map_opt_tl3 h a b c f g). Qed.
+
+Lemma trunc_div_tab2 : forall n m a V, 0 < V ->
+  trunc_div (tabv2 n m (fun i j => vnat (a i j))) (Z.of_nat V) = Some (tabv2 n m (fun i j => vnat (a i j / V))).
+Proof.
+  intros n m a V HV. unfold trunc_div. replace (Z.of_nat V =? 0)%Z with false by lia.
+  apply tmap_opt_tab2. intros i j _ _. unfold vnat. do 2 f_equal.
+  rewrite Z.quot_div_nonneg by lia. symmetry. apply Nat2Z.inj_div.
+Qed.
+
+Lemma remainder_tab2 : forall n m a V, 0 < V ->
+  remainder (tabv2 n m (fun i j => vnat (a i j))) (Z.of_nat V) = Some (tabv2 n m (fun i j => vnat (a i j mod V))).
+Proof.
+  intros n m a V HV. unfold remainder. replace (Z.of_nat V =? 0)%Z with false by lia.
+  apply tmap_opt_tab2. intros i j _ _. unfold vnat. do 2 f_equal. symmetry. apply Nat2Z.inj_mod.
+Qed.
+
+Lemma add_scalar_tab2 : forall n m f c g,
+  (forall i j, i < n -> j < m -> el_add (f i j) c = Some (g i j)) ->
+  add_scalar (tabv2 n m f) c = Some (tabv2 n m g).
+Proof. intros. unfold add_scalar. now apply tmap_opt_tab2. Qed.
+
+(* ---- shapes ------------------------------------------------------------------------------------------------ *)
+Lemma unsqueeze_tab2_2 : forall n m f, unsqueeze (tabv2 n m f) 2 = Some (tabv3 n m 1 (fun i j _ => f i j)).
+Proof.
+  intros n m f. unfold unsqueeze, tabv2, tabv3, dim. cbn [vshape vdata length].
+  change (wrap_dim 3 2) with (Some 2). cbn [firstn skipn app]. do 2 f_equal.
+  all: try (unfold tl2, tl3; apply flat_map_ext_in; intros i _; cbn [seq map];
+            now rewrite (flat_map_singleton (f i))).
+Qed.
+
+Lemma unsqueeze_tab2_0 : forall n m f, unsqueeze (tabv2 n m f) 0 = Some (tabv3 1 n m (fun _ i j => f i j)).
+Proof.
+  intros n m f. unfold unsqueeze, tabv2, tabv3, dim. cbn [vshape vdata length].
+  change (wrap_dim 3 0) with (Some 0). cbn [firstn skipn app]. do 2 f_equal.
+  all: try (rewrite tl3_unfold; cbn [seq flat_map]; now rewrite app_nil_r).
+Qed.
+
+Lemma tl2_as_map : forall {A} b c (f : nat -> nat -> A), 0 < c ->
+  tl2 b c f = map (fun r => f (r / c) (r mod c)) (seq 0 (b * c)).
+Proof.
+  intros A b c f Hc. destruct b as [|b']; [reflexivity|]. set (b := S b') in *.
+  apply nth_ext with (d := f 0 0) (d' := f 0 0); [now rewrite tl2_length, map_length, seq_length|].
+  intros r Hr. rewrite tl2_length in Hr.
+  rewrite Lemmas.nth_map_seq by assumption.
+  rewrite (Nat.div_mod r c) at 1 by lia. rewrite (Nat.mul_comm c).
+  apply nth_tl2; [apply Nat.div_lt_upper_bound; lia|apply Nat.mod_upper_bound; lia].
+Qed.
+
+Lemma flatten_tab3 : forall a b c f, 0 < c ->
+  flatten (tabv3 a b c f) 1 = Some (tabv2 a (b * c) (fun i r => f i (r / c) (r mod c))).
+Proof.
+  intros a b c f Hc. unfold flatten, tabv3, tabv2, dim. cbn [vshape vdata length].
+  change (wrap_dim 3 1) with (Some 1). cbn [firstn skipn app prodn fold_right]. rewrite Nat.mul_1_r. do 2 f_equal.
+  rewrite tl3_unfold. unfold tl2 at 2. apply flat_map_ext_in. intros i _. now apply tl2_as_map.
+Qed.
+
+Lemma expand_tab3_0 : forall s n k f,
+  expand (tabv3 1 n k f) [Z.of_nat s; Z.of_nat n; Z.of_nat k] = Some (tabv3 s n k (fun _ i j => f 0 i j)).
+Proof.
+  intros s n k f. unfold expand. cbn [tabv3 vshape map]. rewrite !nat_of_int.
+  rewrite !Nat.eqb_refl. cbn [orb andb]. rewrite orb_true_r. cbn [andb]. f_equal.
+  apply tabv3_ext. intros t i j Ht Hi Hj. fold (tabv3 1 n k f).
+  rewrite bidx_1, !bidx_same by assumption. apply g3_tab3; lia.
+Qed.
+
+(* ---- addition with broadcasting: (n, k, 1) + (n, k, v) ------------------------------------------------ *)
+Lemma add_tab3_last : forall n k v f g h,
+  (forall i j l, i < n -> j < k -> l < v -> el_add (f i j 0) (g i j l) = Some (h i j l)) ->
+  add (tabv3 n k 1 f) (tabv3 n k v g) = Some (tabv3 n k v h).
+Proof.
+  intros n k v f g h H. unfold add, zip3. cbn [tabv3 vshape as3]. rewrite !bdim_same, bdim_1_l.
+  fold (tabv3 n k 1 f). fold (tabv3 n k v g).
+  rewrite (sequence_tl3 n k v _ h).
+  - reflexivity.
+  - intros i j l Hi Hj Hl. rewrite bidx_1, !bidx_same by assumption.
+    rewrite !g3_tab3 by lia. now apply H.
+Qed.
+
+(* ---- constructors -------------------------------------------------------------------------------------------- *)
+Lemma full_2 : forall n m v, full [Z.of_nat n; Z.of_nat m] v = Some (tabv2 n m (fun _ _ => v)).
+Proof. intros. unfold full. cbn [map]. now rewrite !nat_of_int. Qed.
+
+Lemma full_3 : forall a b c v, full [Z.of_nat a; Z.of_nat b; Z.of_nat c] v = Some (tabv3 a b c (fun _ _ _ => v)).
+Proof. intros. unfold full. cbn [map]. now rewrite !nat_of_int. Qed.
+
+Lemma all_int_tab2 : forall n m f, (forall i j, i < n -> j < m -> is_int (f i j) = true) -> all_int (tabv2 n m f) = true.
+Proof. intros. unfold all_int, tabv2. cbn [vdata]. now apply forallb_tl2. Qed.
+
+Lemma all_int_tab3 : forall a b c f,
+  (forall i j k, i < a -> j < b -> k < c -> is_int (f i j k) = true) -> all_int (tabv3 a b c f) = true.
+Proof. intros. unfold all_int, tabv3. cbn [vdata]. now apply forallb_tl3. Qed.
+
+Lemma kind_ok_int : forall x z, all_int x = true -> kind_ok x (VInt z) = true.
+Proof. intros x z H. unfold kind_ok. unfold all_int in H. rewrite H. reflexivity. Qed.
+
+(* ---- gather / scatter / cat ------------------------------------------------------------------------------ *)
+Lemma gather_tab3 : forall a b c f a' b' c' ix,
+  a' <= a -> b' <= b -> (forall i j k, i < a' -> j < b' -> k < c' -> ix i j k < c) ->
+  gather (tabv3 a b c f) 2 (tabv3 a' b' c' (fun i j k => vnat (ix i j k)))
+  = Some (tabv3 a' b' c' (fun i j k => f i j (ix i j k))).
+Proof.
+  intros a b c f a' b' c' ix Ha Hb Hix. unfold gather. cbn [tabv3 vshape].
+  change (wrap_dim 3 2) with (Some 2).
+  replace (a' <=? a) with true by (symmetry; apply Nat.leb_le; lia).
+  replace (b' <=? b) with true by (symmetry; apply Nat.leb_le; lia). cbn [andb].
+  fold (tabv3 a b c f). fold (tabv3 a' b' c' (fun i j k => vnat (ix i j k))).
+  rewrite (sequence_tl3 a' b' c' _ (fun i j k => f i j (ix i j k))); [reflexivity|].
+  intros i j k Hi Hj Hk. rewrite g3_tab3, nat_of_vnat by assumption.
+  pose proof (Hix i j k Hi Hj Hk) as Hl.
+  replace (ix i j k <? c) with true by (symmetry; apply Nat.ltb_lt; lia).
+  rewrite g3_tab3 by lia. reflexivity.
+Qed.
+
+Lemma gather_tab2 : forall n m f n' m' ix,
+  n' <= n -> (forall i j, i < n' -> j < m' -> ix i j < m) ->
+  gather (tabv2 n m f) 1 (tabv2 n' m' (fun i j => vnat (ix i j))) = Some (tabv2 n' m' (fun i j => f i (ix i j))).
+Proof.
+  intros n m f n' m' ix Hn Hix. unfold gather. cbn [tabv2 vshape].
+  change (wrap_dim 2 1) with (Some 1).
+  replace (n' <=? n) with true by (symmetry; apply Nat.leb_le; lia).
+  fold (tabv2 n m f). fold (tabv2 n' m' (fun i j => vnat (ix i j))).
+  rewrite (sequence_tl2 n' m' _ (fun i j => f i (ix i j))); [reflexivity|].
+  intros i j Hi Hj. rewrite g2_tab2, nat_of_vnat by assumption.
+  pose proof (Hix i j Hi Hj) as Hl.
+  replace (ix i j <? m) with true by (symmetry; apply Nat.ltb_lt; lia).
+  rewrite g2_tab2 by lia. reflexivity.
+Qed.
+
+Lemma scatter_tab3 : forall h n k f ix s,
+  (forall i j, i < n -> j < k -> ix i j < h) ->
+  scatter (tabv3 h n k f) 0 (tabv3 1 n k (fun _ i j => vnat (ix i j))) (tabv3 1 n k s)
+  = Some (tabv3 h n k (fun t i j => if t =? ix i j then s 0 i j else f t i j)).
+Proof.
+  intros h n k f ix s Hix. unfold scatter. cbn [tabv3 vshape vdata].
+  change (wrap_dim 3 0) with (Some 0). rewrite !Nat.eqb_refl. cbn [andb].
+  rewrite (map_opt_tl3 _ 1 n k _ (fun _ i j => ix i j)).
+  - f_equal. apply tabv3_ext. intros t i j Ht Hi Hj.
+    fold (tabv3 1 n k (fun _ i j => vnat (ix i j))). fold (tabv3 1 n k s). fold (tabv3 h n k f).
+    rewrite !g3_tab3 by lia. rewrite nat_of_vnat. reflexivity.
+  - intros t i j Ht Hi Hj. rewrite nat_of_vnat. pose proof (Hix i j Hi Hj).
+    replace (ix i j <? h) with true by (symmetry; apply Nat.ltb_lt; lia). reflexivity.
+Qed.
+
+Lemma cat_tab3_0 : forall a1 a2 b c f g,
+  cat (tabv3 a1 b c f) (tabv3 a2 b c g) 0
+  = COk (tabv3 (a1 + a2) b c (fun i j k => if i <? a1 then f i j k else g (i - a1) j k)).
+Proof.
+  intros. unfold cat. cbn [tabv3 vshape]. change (wrap_dim 3 0) with (Some 0). unfold cat3.
+  rewrite !Nat.eqb_refl. cbn [andb]. fold (tabv3 a1 b c f). fold (tabv3 a2 b c g).
+  unfold tabv3 at 3. do 2 f_equal. apply tl3_ext. intros i j k Hi Hj Hk.
+  destruct (Nat.ltb_spec i a1); rewrite g3_tab3 by lia; reflexivity.
+Qed.
+
+Lemma cat_tab3_2 : forall a b c1 c2 f g,
+  cat (tabv3 a b c1 f) (tabv3 a b c2 g) 2
+  = COk (tabv3 a b (c1 + c2) (fun i j k => if k <? c1 then f i j k else g i j (k - c1))).
+Proof.
+  intros. unfold cat. cbn [tabv3 vshape]. change (wrap_dim 3 2) with (Some 2). unfold cat3.
+  rewrite !Nat.eqb_refl. cbn [andb]. fold (tabv3 a b c1 f). fold (tabv3 a b c2 g).
+  unfold tabv3 at 3. do 2 f_equal. apply tl3_ext. intros i j k Hi Hj Hk.
+  destruct (Nat.ltb_spec k c1); rewrite g3_tab3 by lia; reflexivity.
+Qed.
+
+Lemma cat_tab3_2_raise : forall a1 a2 b c1 c2 f g, a1 <> a2 ->
+  cat (tabv3 a1 b c1 f) (tabv3 a2 b c2 g) 2 = CRaise.
+Proof.
+  intros. unfold cat. cbn [tabv3 vshape]. change (wrap_dim 3 2) with (Some 2). unfold cat3.
+  replace (a1 =? a2) with false by (symmetry; apply Nat.eqb_neq; lia). reflexivity.
+Qed.
+
+Lemma cat_tab2_1 : forall n m1 m2 f g,
+  cat (tabv2 n m1 f) (tabv2 n m2 g) 1
+  = COk (tabv2 n (m1 + m2) (fun i j => if j <? m1 then f i j else g i (j - m1))).
+Proof.
+  intros. unfold cat. cbn [tabv2 vshape]. change (wrap_dim 2 1) with (Some 1). unfold cat3.
+  rewrite !Nat.eqb_refl. cbn [andb]. fold (tabv2 n m1 f). fold (tabv2 n m2 g).
+  unfold tabv2 at 3. do 2 f_equal. rewrite tl3_unfold. cbn [seq flat_map]. rewrite app_nil_r.
+  apply tl2_ext. intros i j Hi Hj. unfold g3. cbn [Nat.mul Nat.add].
+  change (nth (i * m1 + j) (vdata (tabv2 n m1 f)) VNone) with (g2 m1 (tabv2 n m1 f) i j).
+  change (nth (i * m2 + (j - m1)) (vdata (tabv2 n m2 g)) VNone) with (g2 m2 (tabv2 n m2 g) i (j - m1)).
+  destruct (Nat.ltb_spec j m1); rewrite g2_tab2 by lia; reflexivity.
+Qed.
+
+(* ---- topk ---------------------------------------------------------------------------------------------------- *)
+Lemma topk_tab2 : forall n m f (s : nat -> nat -> C04.Model.score) k,
+  (forall i j, i < n -> j < m -> score_of (f i j) = Some (s i j)) -> k <= m ->
+  (forall i j, i < n -> j < k -> nth j (C04.Model.topk_stable k (map (s i) (seq 0 m))) 0 < m) ->
+  topk (tabv2 n m f) (Z.of_nat k) 1 =
+  Some (tabv2 n k (fun i j => f i (nth j (C04.Model.topk_stable k (map (s i) (seq 0 m))) 0)),
+        tabv2 n k (fun i j => vnat (nth j (C04.Model.topk_stable k (map (s i) (seq 0 m))) 0))).
+Proof.
+  intros n m f s k Hs Hk Hsel. unfold topk. cbn [tabv2 vshape vdata]. change (wrap_dim 2 1) with (Some 1).
+  replace ((0 <=? Z.of_nat k)%Z && (Z.of_nat k <=? Z.of_nat m)%Z)%bool with true
+    by (symmetry; apply andb_true_iff; split; apply Z.leb_le; lia).
+  rewrite (map_opt_tl2 score_of n m f s Hs). rewrite Nat2Z.id. fold (tabv2 n m f).
+  assert (Hrow : forall i, i < n ->
+            map (fun j => match score_of (g2 m (tabv2 n m f) i j) with Some x => x | None => None end) (seq 0 m)
+            = map (s i) (seq 0 m)).
+  { intros i Hi. apply map_ext_in. intros j Hj. apply in_seq in Hj. rewrite g2_tab2, Hs by lia. reflexivity. }
+  f_equal. f_equal.
+  - apply tabv2_ext. intros i j Hi Hj. rewrite Hrow by assumption. apply g2_tab2; [assumption|]. now apply Hsel.
+  - apply tabv2_ext. intros i j Hi Hj. now rewrite Hrow.
+Qed.
+
+(* ---- reductions over a list of lengths ------------------------------------------------------------------------ *)
+Lemma map_opt_z_of_vnat : forall l, map_opt z_of (map vnat l) = Some (map Z.of_nat l).
+Proof. induction l as [|x l IH]; [reflexivity|]. cbn [map map_opt]. rewrite IH. reflexivity. Qed.
+
+Lemma fold_max_ge : forall (l : list nat) (z0 S : Z),
+  (S <=? fold_left Z.max (map Z.of_nat l) z0)%Z = ((S <=? z0)%Z || existsb (fun x => (S <=? Z.of_nat x)%Z) l)%bool.
+Proof.
+  induction l as [|x l IH]; intros z0 S; cbn [map fold_left existsb]; [now rewrite orb_false_r|].
+  rewrite IH. destruct (Z.leb_spec S (Z.max z0 (Z.of_nat x))), (Z.leb_spec S z0), (Z.leb_spec S (Z.of_nat x));
+    cbn [orb]; try reflexivity; lia.
+Qed.
+
+Lemma existsb_ext_all : forall {A} (p q : A -> bool) l, (forall x, p x = q x) -> existsb p l = existsb q l.
+Proof. induction l as [|x l IH]; intros H; [reflexivity|]. cbn [existsb]. now rewrite H, IH. Qed.
+
+Lemma tmax_lens : forall sh (l : list nat), l <> [] ->
+  exists z, tmax (mkVT sh (map vnat l)) = Some (mkVT [] [VInt z]) /\
+            forall S, (Z.of_nat S <=? z)%Z = existsb (fun x => S <=? x) l.
+Proof.
+  intros sh [|x l] H; [congruence|]. unfold tmax. cbn [vdata]. rewrite map_opt_z_of_vnat. cbn [map].
+  eexists. split; [reflexivity|]. intros S. rewrite fold_max_ge. cbn [existsb]. f_equal.
+  - destruct (Z.leb_spec (Z.of_nat S) (Z.of_nat x)), (Nat.leb_spec S x); try reflexivity; lia.
+  - apply existsb_ext_all. intros y.
+    destruct (Z.leb_spec (Z.of_nat S) (Z.of_nat y)), (Nat.leb_spec S y); try reflexivity; lia.
+Qed.
+
+Lemma item_scalar : forall v, item (mkVT [] [v]) = Some v. Proof. reflexivity. Qed.
+
+Lemma any_ne0_lens : forall sh (l : list nat),
+  exists x, ne_scalar (mkVT sh (map vnat l)) 0 = Some x /\ any x = Some (existsb (fun n => negb (n =? 0)) l).
+Proof.
+  intros sh l. unfold ne_scalar, tmap_opt. cbn [vdata vshape].
+  rewrite (map_opt_ext_in _ (fun v => match v with VInt z => VBool (negb (z =? 0)%Z) | _ => VNone end)).
+  - eexists. split; [reflexivity|]. unfold any. cbn [vdata]. rewrite !map_map.
+    rewrite (map_opt_ext_in _ (fun v => match v with VBool b => b | _ => false end)).
+    + cbn [option_map]. f_equal. rewrite map_map.
+      induction l as [|y l IH]; [reflexivity|]. cbn [map existsb]. rewrite IH. f_equal.
+      unfold vnat. destruct (Z.eqb_spec (Z.of_nat y) 0), (Nat.eqb_spec y 0); try reflexivity; lia.
+    + intros v Hv. apply in_map_iff in Hv. destruct Hv as [y [<- _]]. reflexivity.
+  - intros v Hv. apply in_map_iff in Hv. destruct Hv as [y [<- _]]. reflexivity.
+Qed.
